@@ -162,4 +162,24 @@ theorem bitsDecode_kernel (c : Bytes) :
         congr 2
         simp [List.length_take, unpackBits_length]
 
+/-! ### `NullPayloadDecoder.valueDecoder` -/
+
+/-- **the NULL decoder as it is in the source**: a constructed identifier is refused, contents octets are refused
+    ("Unexpected n-octet substrate for Null"), and an empty contents is accepted having consumed nothing - on the complete
+    contents `c` (the declared length is what is there) -/
+theorem nullDecode_kernel (notSimple : Bool) (c : Bytes) :
+    GenK.nullDecode notSimple (bytesInts c) ((c.length : Nat) : Int) =
+      if notSimple then .error (.lib "PyAsn1Error") else if c.isEmpty then .ok 0 else .error (.lib "PyAsn1Error") := by
+  unfold GenK.nullDecode
+  cases notSimple with
+  | true => simp [throw, throwThe, MonadExceptOf.throw]
+  | false =>
+    have hr : Py.readN (bytesInts c) (0 : Int) ((c.length : Nat) : Int) = .ok (bytesInts c) := by
+      have h := readN_all_from c 0 (Nat.zero_le _)
+      simpa using h
+    simp only [Bool.false_eq_true, if_false, hr, bind, Except.bind]
+    cases c with
+    | nil => simp [bytesInts, pure, Except.pure]
+    | cons b rest => simp [bytesInts, throw, throwThe, MonadExceptOf.throw]
+
 end Asn1.Kernels
